@@ -1,5 +1,7 @@
 package main
 
+import "fmt"
+
 // The unit table of the GoLite translator: which Go functions of /repo are translated to
 // Lean (Generated/Code.lean), and the Lean type each parameter is read at.  Parameter names
 // are checked against the source, so a renamed or re-ordered parameter makes the unit
@@ -593,4 +595,45 @@ func init() {
 			Calls:       map[string]callSpec{"SortBids": {Value: V{"sorted__", "List Bid"}}},
 			MapKeyOrder: []string{"keys__"}, MapLen: map[string]string{"bidsByPrice": "keys__"},
 			TypeNames: map[string]LT{"string": "Dec", "[]Bid": "List Bid", "math.LegacyDec": "Dec"}})
+}
+
+// hookSigs: the ten hooks (types.FundraisingHooks), the effect name the handler units record a call
+// of the keeper wrapper under, and the Lean types of the parameters after ctx, by position
+var hookSigs = []struct {
+	Name, Eff string
+	Ts        []LT
+}{
+	{"BeforeFixedPriceAuctionCreated", "beforeFixedCreated", []LT{"Acc", "Dec", "Coin", "Denom", "List VS", "Time", "Time"}},
+	{"AfterFixedPriceAuctionCreated", "afterFixedCreated", []LT{"Int", "Acc", "Dec", "Coin", "Denom", "List VS", "Time", "Time"}},
+	{"BeforeBatchAuctionCreated", "beforeBatchCreated", []LT{"Acc", "Dec", "Dec", "Coin", "Denom", "List VS", "Int", "Dec", "Time", "Time"}},
+	{"AfterBatchAuctionCreated", "afterBatchCreated", []LT{"Int", "Acc", "Dec", "Dec", "Coin", "Denom", "List VS", "Int", "Dec", "Time", "Time"}},
+	{"BeforeAuctionCanceled", "beforeAuctionCanceled", []LT{"Int", "Acc"}},
+	{"BeforeBidPlaced", "beforeBidPlaced", []LT{"Int", "Int", "Acc", "BidType", "Dec", "Coin"}},
+	{"BeforeBidModified", "beforeBidModified", []LT{"Int", "Int", "Acc", "BidType", "Dec", "Coin"}},
+	{"BeforeAllowedBiddersAdded", "beforeAllowedBiddersAdded", []LT{"List AllowedArg"}},
+	{"BeforeAllowedBidderUpdated", "beforeAllowedBidderUpdated", []LT{"Int", "Acc", "Int"}},
+	{"BeforeSellingCoinsAllocated", "beforeSellingCoinsAllocated", []LT{"Int", "Map Acc Int", "Map Acc Int"}},
+}
+
+func init() {
+	// ---- types/hooks.go (MultiFundraisingHooks: the dispatch over the registered listeners) and
+	// keeper/hooks.go (the keeper's wrappers: "call hook if registered").  A listener is its position
+	// in the list the keeper was given; what a listener returns is an oracle function of it.  A call
+	// of listener x is recorded as the hook's effect with x in front of the arguments.
+	for _, h := range hookSigs {
+		var ps []gparam
+		var idx []int
+		for i, ty := range h.Ts {
+			ps = append(ps, gparam{Go: fmt.Sprintf("p%d", i), T: ty})
+			idx = append(idx, i+1)
+		}
+		lerr := gparam{Go: "lerr__", T: "Nat → Bool", Oracle: true}
+		units = append(units,
+			Unit{Group: "Hooks", Name: "Multi_" + h.Name, Pkg: typesP, Recv: "MultiFundraisingHooks", RecvLean: "List Nat", Func: h.Name,
+				Params: append(append([]gparam{{Go: "h", T: "List Nat"}, {Go: "ctx"}}, ps...), lerr), Ret: []LT{"Err"}, EffectsOn: true,
+				Calls: map[string]callSpec{"k[]." + h.Name: {Effect: h.Eff, Args: idx, Value: V{"(lerr__ %0)", "Err"}}}},
+			Unit{Group: "Hooks", Name: "Keeper_" + h.Name, Pkg: keeperP, Recv: "Keeper", RecvLean: "KeeperHooks", Func: h.Name,
+				Params: append(append([]gparam{{Go: "k", T: "Keeper"}, {Go: "ctx"}}, ps...),
+					gparam{Go: "hooks__", T: "Option List Nat", Oracle: true}, lerr), Ret: []LT{"Err"}, EffectsOn: true})
+	}
 }
